@@ -68,6 +68,8 @@ def e1_plan(obs_map, obs_set, alpha="structural", quick_types=ALL, canonical_obs
                 runs += grid(["map"], ["u8", "Ipv6Net"], ["U3"], ["hi"], "canonical", canonical_obs, threads=4)
             if thorough_extra:
                 runs += thorough_extra()
+            # abstraction validation: the complete slot layout and free-list order in the state key
+            runs += [ex("map", "u8", "U2", "hi", "structural", obs_map, threads=8, layout=True, max_states=30000000)]
         return {"runs": runs}
     return f
 
